@@ -39,6 +39,7 @@ FINDINGS = {
     "C07-value-update-stale": "an update that changes the value of an indexed record leaves the built value index unsorted until the next insert",
     "C07-value-insert-wrong-comparator": "inserting into an already built non-int64 value index re-sorts with the int64 comparator, which fails: the new record stays appended at the end",
     "C07-first-readers-race": "buildBeacon raises `initialized` before it fills and sorts the slice: the second of two concurrent first readers of an index is answered from the empty slice",
+    "C07-claim-loser-dropped": "a shift that finds a selected record not wanted any more (changed between its selection pass and its deletes) does not put it back: the record stays out of the index it was selected from",
     "C07-window-bound-wraps": "findTimeRangeBounds converts window bounds with UnixNano(), which wraps outside the years 1677-2262: ToTime = 9999-12-31 becomes negative and the read returns nothing",
     "C07-expire-cleared-refiled": "the expiration branch of SaveFunction re-files a record whose expiry was just cleared: it stays in the built expiration index under key 0",
     "C07-patch-expired-partial-reindex": "PatchExpired hands only part of its selection back to the ascending expiration index: a patched, still expired record loaded from disk drops out of it",
@@ -180,6 +181,7 @@ class Hist:
         self.insert_after_value_read = False
         self.race_line = False               # the line being judged is the second reader of a `race`
         self.value_read_over_mixed = False   # a value read happened while a record of another type was alive
+        self.claim_raced = False             # a held shift was released in this case
         self.i64_build_failed = False        # …an int64 one: SortByValueInt64 fails and leaves the slices filled, unflagged
         self.patchexp = False                # an expired-patch ran (this line included)
 
@@ -230,6 +232,8 @@ def symptom(fid, q, keys, sh, hist):
         return idx == "created" and clean and bool(hist.time_updates["created"])
     if fid == "C07-value-update-stale":
         return idx in VALUE_TYPES and clean and bool(hist.value_updates)
+    if fid == "C07-claim-loser-dropped":
+        return clean and hist.claim_raced
     if fid == "C07-window-bound-wraps":
         out = lambda b: b is not None and not (-2**63 <= b <= 2**63 - 1)
         return idx in TIME and (out(q[4]) or out(q[5])) and clean
@@ -262,6 +266,7 @@ def judge(c):
     n = max(len(c.ops), len(c.impl), len(c.model))
     pending_vt, pending_mixed, pending_shift = None, False, False
     pending_pexp, pending_del = None, None
+    held_v = None
     for i in range(n):
         op = c.ops[i] if i < len(c.ops) else ""
         impl = c.impl[i] if i < len(c.impl) else "<missing>"
@@ -294,6 +299,16 @@ def judge(c):
             sh.set(f[1], f[2], int(f[3]), int(f[4]), int(f[5]), int(f[6]))
         elif f[0] == "del" and len(f) == 2:
             sh.delete(f[1])
+        elif f[0] == "srelease" and impl.startswith("r "):
+            for k in [k for k in impl[2:].split(",") if k]:
+                if k in sh.recs and not (sh.recs[k]["t"] == "bytes" and held_v is not None and sh.recs[k]["v"] >= held_v):
+                    unexplained.append((i, "`srelease` handed out %s, which does not satisfy the shift's filter any more" % k))
+                sh.delete(k)            # claimed by the held shift
+            held_v = None
+            hist.claim_raced = True
+            stats["claim_races"] = stats.get("claim_races", 0) + 1
+        elif f[0] == "sheld" and len(f) == 5 and impl == "held":
+            held_v = int(f[4])
         elif f[0] == "reload":
             hist.i64_build_failed = False   # every index is gone with the swamp object
             hist.value_types_read = set()
@@ -472,6 +487,9 @@ def spec_violated(rep):
             else:
                 for k in [k for k, r in sh.recs.items() if r["expire"] != 0]:
                     sh.delete(k)
+        elif f[0] == "srelease" and impl.startswith("r "):
+            for k in [k for k in impl[2:].split(",") if k]:
+                sh.delete(k)
         elif f[0] == "patch" and len(f) == 3:
             want = sh.patch(f[1], f[2])
             if i == last and impl != want:
